@@ -8,7 +8,7 @@
    NOT a theorem (validated on generated convex problems by tools/checks/C10.py, reported as partial):
    "on convex problems with a known optimum the iterates approach that optimum while the constraints end up satisfied",
    and convergence of the Newton iteration inside subsolv (the theorems below hold for EVERY Newton direction). *)
-From Coq Require Import ZArith QArith String List Bool Reals.
+From Coq Require Import ZArith QArith Qround String List Bool Reals.
 From Coquelicot Require Import Coquelicot.
 From Pymoto Require Import Base.Num Base.MMANum Model.MMAform Model.MMAvars Proofs.MMAformP Proofs.MMAvarsP.
 Import ListNotations.
@@ -282,6 +282,70 @@ Proof.
 Qed.
 Print Assumptions C10_bounds_expansion_other.
 
+(* ------------------------------------------------------------------ the same code with the numpy dtype of every operand
+   (int32 / int64 / float32 / float64; a Python int is int64, a Python float float64 after np.asarray).
+   `conv a b x` is ndarray.astype (value x of dtype a stored into dtype b), a parameter; the only contract used is
+   that float64 -> float64 keeps the value. *)
+
+(* the concatenated design vector is float64 whatever the dtypes of the variable signals *)
+Theorem C10_concat_dtype_float64 : forall (A : Type) (conv : dtype -> dtype -> A -> A) (vs : list (tstate A)) r,
+  concat_to_array_t conv vs = Some r -> fst (fst r) = F64.
+Proof. exact @concat_t_dtype. Qed.
+Print Assumptions C10_concat_dtype_float64.
+
+(* ValueError exactly when a state is None *)
+Theorem C10_concat_none_rejected : forall (A : Type) (conv : dtype -> dtype -> A -> A) (vs : list (tstate A)),
+  concat_to_array_t conv vs = None <-> existsb is_tnone vs = true.
+Proof. exact @concat_t_none. Qed.
+Print Assumptions C10_concat_none_rejected.
+
+(* its values and the cumulative indices are those of the untyped model on the states converted to float64 (once each),
+   so C10_concat_spec / C10_split_concat / C10_writeback_* apply to it *)
+Theorem C10_concat_typed_values : forall (A : Type) (conv : dtype -> dtype -> A -> A),
+  (forall a, conv F64 F64 a = a) -> forall vs : list (tstate A), existsb is_tnone vs = false ->
+  concat_to_array_t conv vs
+  = Some ((F64, fst (concat_to_array (map (untag conv) vs))), snd (concat_to_array (map (untag conv) vs))).
+Proof. exact @concat_t_spec. Qed.
+Print Assumptions C10_concat_typed_values.
+
+(* bound expansion against a float64 design vector: scalar and per-signal specifications of ANY dtype become float64
+   vectors holding the given values (converted to float64, never truncated); a per-variable sequence is kept as given *)
+Theorem C10_bounds_expansion_typed : forall (A : Type) (d : A) (conv : dtype -> dtype -> A -> A),
+  (forall a, conv F64 F64 a = a) -> forall (zero : A) (xs : list A) nvars cum sdt (l : list A) (a : A),
+  expand_bound_t d conv zero (F64, xs) nvars cum (TBScal sdt a) = Some (F64, repeat (conv sdt F64 a) (length xs)) /\
+  (length l = nvars ->
+     expand_bound_t d conv zero (F64, xs) nvars cum (TBList sdt l)
+     = option_map (pair F64) (expand_bound d zero (length xs) nvars cum (BList (map (conv sdt F64) l)))) /\
+  (length l = nvars ->
+     expand_move_t d conv zero (F64, xs) nvars cum (TBList sdt l)
+     = Some (F64, fill_ranges d zero (length xs) cum (map (conv sdt F64) l))) /\
+  (length l <> nvars ->
+     expand_bound_t d conv zero (F64, xs) nvars cum (TBList sdt l) = if length l =? length xs then Some (sdt, l) else None).
+Proof.
+  intros A d conv Hc zero xs nvars cum sdt l a.
+  exact (conj (expand_t_scalar d conv zero xs nvars cum sdt a)
+        (conj (expand_t_per_signal d conv zero xs nvars cum sdt l)
+        (conj (expand_move_t_per_signal d conv zero xs nvars cum sdt l)
+              (expand_t_per_variable d conv zero (F64, xs) nvars cum sdt l)))).
+Qed.
+Print Assumptions C10_bounds_expansion_typed.
+
+(* the pipeline of MMA.response: states of ANY dtypes and a per-signal bound of ANY dtype: the design vector is float64,
+   every entry of the expanded bound on the range of signal i is the i-th given value converted to float64, and
+   every written-back state is float64 *)
+Theorem C10_typed_per_signal_bound : forall (A : Type) (d : A) (conv : dtype -> dtype -> A -> A),
+  (forall a, conv F64 F64 a = a) ->
+  forall (vs : list (tstate A)) (sdt : dtype) (l : list A) (zero : A),
+  existsb is_tnone vs = false -> length l = length vs ->
+  exists xs cum e,
+    concat_to_array_t conv vs = Some ((F64, xs), cum) /\
+    expand_bound_t d conv zero (F64, xs) (length vs) cum (TBList sdt l) = Some (F64, e) /\
+    length e = length xs /\
+    (forall i j, i < length vs -> nth i cum 0 <= j < nth (S i) cum 0 -> nth j e d = conv sdt F64 (nth i l d)) /\
+    (forall s, In s (writeback_t d (F64, xs) cum (length vs)) -> exists v, s = TVal F64 v).
+Proof. exact @typed_per_signal_bound. Qed.
+Print Assumptions C10_typed_per_signal_bound.
+
 (* ------------------------------------------------------------------ non-vacuity *)
 Open Scope R_scope.
 (* the hypotheses of the component theorems are met by a concrete design at its lower bound *)
@@ -318,4 +382,18 @@ Example C10_nonvacuous_vars :
   concat_to_array [Scal 5%Z; Arr [1; 2; 3]%Z; Arr [7]%Z; Arr []] = ([5; 1; 2; 3; 7]%Z, [0; 1; 4; 5; 5]%nat) /\
   writeback 0%Z [5; 1; 2; 3; 7]%Z [0; 1; 4; 5; 5]%nat 4 = [Scal 5%Z; Arr [1; 2; 3]%Z; Scal 7%Z; Arr []] /\
   expand_bound 0%Z 0%Z 5 4 [0; 1; 4; 5; 5]%nat (BList [10; 20; 30; 40]%Z) = Some [10; 20; 20; 20; 30]%Z.
+Proof. vm_compute. repeat split; reflexivity. Qed.
+
+(* integer-typed states (an int64 array and a Python int) with the per-signal bound [1/2, 3/2]: the design vector is
+   float64 and the expanded bound holds 1/2 and 3/2.  The last line shows that the model does distinguish dtypes: the same
+   expansion against an int64 vector of the same length (which a dtype-preserving concatenation would hand over)
+   truncates the bound to 0 and 1. *)
+Definition ex_conv (src dst : dtype) (q : Q) : Q := match dst with I32 | I64 => inject_Z (Qfloor q) | _ => q end.
+Example C10_nonvacuous_typed :
+  concat_to_array_t ex_conv [TVal I64 (Arr [2; 2; 2]); TVal I64 (Scal 3)] = Some ((F64, [2; 2; 2; 3]), [0; 3; 4]%nat) /\
+  expand_bound_t 0 ex_conv 0 (F64, [2; 2; 2; 3]) 2 [0; 3; 4]%nat (TBList F64 [1 # 2; 3 # 2])
+    = Some (F64, [1 # 2; 1 # 2; 1 # 2; 3 # 2]) /\
+  writeback_t 0 (F64, [2; 2; 2; 3]) [0; 3; 4]%nat 2 = [TVal F64 (Arr [2; 2; 2]); TVal F64 (Scal 3)] /\
+  expand_bound_t 0 ex_conv 0 (I64, [2; 2; 2; 3]) 2 [0; 3; 4]%nat (TBList F64 [1 # 2; 3 # 2])
+    = Some (I64, [inject_Z 0; inject_Z 0; inject_Z 0; inject_Z 1]).
 Proof. vm_compute. repeat split; reflexivity. Qed.
